@@ -41,42 +41,55 @@ package multicastsetup
 //@   modifies nothing
 //@ func (*PackageVersionAnsPayload).UnmarshalBinary
 //@   props C09 C10
+//@   inline
 //@   modifies *p
 //@ func (*McGroupStatusReqPayload).UnmarshalBinary
 //@   props C09 C10
+//@   inline
 //@   modifies *p
 //@ func (*McGroupStatusAnsPayload).UnmarshalBinary
 //@   props C09 C10
+//@   inline
 //@   modifies *p, p.Items[len(p.Items):cap(p.Items)]
 //@ func (*McGroupSetupReqPayload).UnmarshalBinary
 //@   props C09 C10
+//@   inline
 //@   modifies *p
 //@ func (*McGroupSetupAnsPayload).UnmarshalBinary
 //@   props C09 C10
+//@   inline
 //@   modifies *p
 //@ func (*McGroupDeleteReqPayload).UnmarshalBinary
 //@   props C09 C10
+//@   inline
 //@   modifies *p
 //@ func (*McGroupDeleteAnsPayload).UnmarshalBinary
 //@   props C09 C10
+//@   inline
 //@   modifies *p
 //@ func (*McClassCSessionReqPayload).UnmarshalBinary
 //@   props C09 C10
+//@   inline
 //@   modifies *p
 //@ func (*McClassCSessionAnsPayload).UnmarshalBinary
 //@   props C09 C10
+//@   inline
 //@   modifies *p
 //@ func (*McClassBSessionReqPayload).UnmarshalBinary
 //@   props C09 C10
+//@   inline
 //@   modifies *p
 //@ func (*McClassBSessionAnsPayload).UnmarshalBinary
 //@   props C09 C10
+//@   inline
 //@   modifies *p
 //@ func (*Command).UnmarshalBinary
 //@   props C09 C10
+//@   inline
 //@   modifies *c
 //@ func (Command).Size
 //@   props C09
+//@   inline
 //@   modifies nothing
 //@   requires typed-nil: c.Payload != nil ==> as_nonnil(c.Payload)
 //@   ensures positive: result >= 1
